@@ -5,6 +5,7 @@ from llsym import Finding, Sym
 from irparse import IntTy
 i8, i32, i64 = IntTy(8), IntTy(32), IntTy(64)
 R = 1 << 29
+FP_RANGE = (-(1 << 29), 1 << 29)      # integers obtained from the (opaque) floating-point intersection computation: inside the segment's bounding box (cbmc lemmas fp_ratio, fp_scale_x, fp_scale_y)
 TR = 7
 
 
@@ -89,6 +90,314 @@ def gen(tags, r=50):
     return g
 
 
+def py_orient(p, q, r): return (q[0] - p[0]) * (r[1] - p[1]) - (q[1] - p[1]) * (r[0] - p[0])
+
+
+def ring_checks(I, ring, what):
+    """ring = list of (x, y) z3 Int terms as delivered: closed, >= 4 points, no two non-adjacent segments with a common point, adjacent ones not folding back"""
+    n = len(ring)
+    if n < 4: raise Finding('ring-too-short', '%s has %d points' % (what, n))
+    I.obligation(z3.And(ring[0][0] == ring[-1][0], ring[0][1] == ring[-1][1]), 'ring-not-closed', '%s: first and last point differ' % what)
+    segs = [(ring[k], ring[k + 1]) for k in range(n - 1)]
+    for (a, b) in segs: I.obligation(z3.Not(z3.And(a[0] == b[0], a[1] == b[1])), 'zero-length-segment', '%s contains a zero-length segment' % what)
+    m = len(segs)
+    for i in range(m):
+        for j in range(i + 1, m):
+            (a, b), (c, d) = segs[i], segs[j]
+            o1, o2, o3, o4 = py_orient(a, b, c), py_orient(a, b, d), py_orient(c, d, a), py_orient(c, d, b)
+            inbox = lambda p, q, r: z3.And(z3.If(p[0] < q[0], p[0], q[0]) <= r[0], r[0] <= z3.If(p[0] < q[0], q[0], p[0]), z3.If(p[1] < q[1], p[1], q[1]) <= r[1], r[1] <= z3.If(p[1] < q[1], q[1], p[1]))
+            touch = z3.Or(z3.And(sgn(o1) * sgn(o2) < 0, sgn(o3) * sgn(o4) < 0),
+                          z3.And(o1 == 0, inbox(a, b, c)), z3.And(o2 == 0, inbox(a, b, d)), z3.And(o3 == 0, inbox(c, d, a)), z3.And(o4 == 0, inbox(c, d, b)))
+            adjacent = (j == i + 1) or (i == 0 and j == m - 1)
+            if adjacent:
+                # neighbours share exactly their common vertex: they must not be collinear and overlapping (fold back)
+                shared, p, q = (b, a, d) if j == i + 1 else (a, b, c)
+                fold = z3.And(py_orient(p, shared, q) == 0, (p[0] - shared[0]) * (q[0] - shared[0]) + (p[1] - shared[1]) * (q[1] - shared[1]) > 0)
+                I.obligation(z3.Not(fold), 'ring-self-overlap', '%s: segments %d and %d fold back onto each other' % (what, i, j))
+            else:
+                I.obligation(z3.Not(touch), 'ring-self-intersection', '%s: segments %d and %d have a common point' % (what, i, j))
+
+
+def signed_area2(ring):
+    return sum(((ring[k][0] * ring[k + 1][1] - ring[k + 1][0] * ring[k][1]) for k in range(len(ring) - 1)), z3.IntVal(0))
+
+
+def read_areas(I, out, total):
+    """parse the wrapper's dump: returns (ok, counters, [ [ (outer ring, [inner rings]) ] per area ])"""
+    pos = [0]
+    def w(): v = I.load(out + 4 * pos[0], i32); pos[0] += 1; return v
+    def cw(what): return I.concretize(w(), what)
+    def sw():
+        v = w()
+        return I.sterm(v, 32) if isinstance(v, Sym) else z3.IntVal(v - (1 << 32) if v >= (1 << 31) else v)
+    ok = cw('ok'); counters = [cw('counter') for _ in range(5)]
+    areas = []
+    for _ in range(cw('number of areas')):
+        outers = []
+        for _o in range(cw('number of outer rings')):
+            ring = [(sw(), sw()) for _p in range(cw('outer ring size'))]
+            inners = [[(sw(), sw()) for _p in range(cw('inner ring size'))] for _i in range(cw('number of inner rings'))]
+            outers.append((ring, inners))
+        areas.append(outers)
+    return ok, counters, areas
+
+
+def h_assemble_way(I, job):
+    """Assembler on one closed way whose vertices have symbolic coordinates in a small grid"""
+    ids = job['ids']; n = len(ids); r = job['range']
+    I.fp2int_range = FP_RANGE; I.fp_model = 'real'
+    pts = {}
+    idm = I.new_obj(8 * n, 'ids', 'heap'); xm = I.new_obj(4 * n, 'xs', 'heap'); ym = I.new_obj(4 * n, 'ys', 'heap')
+    T = []
+    for k, nid in enumerate(ids):
+        if nid not in pts:
+            if nid in job.get('fixed', {}): pts[nid] = job['fixed'][nid]
+            else: pts[nid] = (I.named_signed('x%d' % nid, 32, 0, r), I.named_signed('y%d' % nid, 32, 0, r))
+        x, y = pts[nid]
+        I.store(idm + 8 * k, i64, nid); I.store(xm + 4 * k, i32, x); I.store(ym + 4 * k, i32, y)
+        T.append(tuple(I.sterm(c, 32) if isinstance(c, Sym) else z3.IntVal(c) for c in (x, y)))
+    # distinct node ids have distinct locations in this harness (duplicate nodes are a different job)
+    keys = sorted(pts)
+    for a in range(len(keys)):
+        for b in range(a + 1, len(keys)):
+            ta, tb = [tuple(I.sterm(c, 32) if isinstance(c, Sym) else z3.IntVal(c) for c in pts[keys[z]]) for z in (a, b)]
+            I.assume(z3.Not(z3.And(ta[0] == tb[0], ta[1] == tb[1])))
+    out = I.new_obj(4 * 256, 'out', 'heap'); ol = I.new_obj(4, 'ol', 'heap')
+    I.call('@verif_assemble_way', [n, idm, xm, ym, out, 256, ol])
+    total = I.concretize(I.load(ol, i32), 'outlen')
+    ok, counters, areas = read_areas(I, out, total)
+    I.observe('ok', ok)
+    # reference verdict for a closed way (first id == last id) visiting distinct points: valid iff its segments form a simple polygon
+    segs = [(T[k], T[k + 1]) for k in range(n - 1)]
+    m = len(segs); bad = []
+    for i in range(m):
+        for j in range(i + 1, m):
+            (a, b), (c, d) = segs[i], segs[j]
+            o1, o2, o3, o4 = py_orient(a, b, c), py_orient(a, b, d), py_orient(c, d, a), py_orient(c, d, b)
+            inbox = lambda p, q, r_: z3.And(z3.If(p[0] < q[0], p[0], q[0]) <= r_[0], r_[0] <= z3.If(p[0] < q[0], q[0], p[0]), z3.If(p[1] < q[1], p[1], q[1]) <= r_[1], r_[1] <= z3.If(p[1] < q[1], q[1], p[1]))
+            adjacent = (j == i + 1) or (i == 0 and j == m - 1)
+            if adjacent:
+                shared, p, q = (b, a, d) if j == i + 1 else (a, b, c)
+                bad.append(z3.And(py_orient(p, shared, q) == 0, (p[0] - shared[0]) * (q[0] - shared[0]) + (p[1] - shared[1]) * (q[1] - shared[1]) > 0))
+            else:
+                bad.append(z3.Or(z3.And(sgn(o1) * sgn(o2) < 0, sgn(o3) * sgn(o4) < 0), z3.And(o1 == 0, inbox(a, b, c)), z3.And(o2 == 0, inbox(a, b, d)), z3.And(o3 == 0, inbox(c, d, a)), z3.And(o4 == 0, inbox(c, d, b))))
+    simple = z3.Not(z3.Or(bad)) if bad else z3.BoolVal(True)
+    if len(areas) > 1: raise Finding('area-count', '%d areas delivered for one way' % len(areas))
+    if not ok and areas: raise Finding('area-on-failure', 'an area is committed although the assembler reports failure')
+    if areas and areas[0]:
+        # an area with rings (an area without rings is what the default configuration delivers for invalid geometry)
+        I.reach('assembled')
+        outers = areas[0]
+        I.obligation(simple, 'invalid-input-assembled', 'an area is produced although the way\'s segments cross, touch or overlap')
+        if len(outers) != 1: raise Finding('ring-count', 'a simple closed way gives %d outer rings' % len(outers))
+        ring, inners = outers[0]
+        if inners: raise Finding('ring-count', 'a single way gives %d inner rings' % len(inners))
+        ring_checks(I, ring, 'outer ring')
+        if len(ring) != n: raise Finding('ring-size', 'outer ring has %d points, the way has %d' % (len(ring), n))
+        # same region: the ring is the way's vertex cycle (possibly rotated / reversed); the doubled signed area has the same magnitude and the documented sign
+        a_in, a_out = signed_area2(T), signed_area2(ring)
+        I.obligation(z3.Or(a_out == a_in, a_out == -a_in), 'region', 'outer ring does not enclose the way\'s region (doubled signed area differs)')
+        I.obligation(a_out > 0, 'orientation', 'outer ring is not counter-clockwise (positive doubled signed area)')
+        # every way vertex occurs in the ring
+        for k in range(n - 1):
+            I.obligation(z3.Or([z3.And(T[k][0] == p[0], T[k][1] == p[1]) for p in ring]), 'region', 'way vertex %d is missing from the outer ring' % k)
+    else:
+        I.reach('rejected')
+        I.obligation(z3.Not(simple), 'valid-input-rejected', 'the way is a simple polygon but no area with rings is produced')
+        if sum(counters) == 0: raise Finding('not-reported', 'invalid geometry rejected without any report to the problem reporter')
+    I.reach('end')
+
+
+def z_inbox(p, q, r): return z3.And(z3.If(p[0] < q[0], p[0], q[0]) <= r[0], r[0] <= z3.If(p[0] < q[0], q[0], p[0]), z3.If(p[1] < q[1], p[1], q[1]) <= r[1], r[1] <= z3.If(p[1] < q[1], q[1], p[1]))
+
+
+def z_common(a, b, c, d):
+    """closed segments ab and cd have a common point (exact)"""
+    o1, o2, o3, o4 = py_orient(a, b, c), py_orient(a, b, d), py_orient(c, d, a), py_orient(c, d, b)
+    return z3.Or(z3.And(sgn(o1) * sgn(o2) < 0, sgn(o3) * sgn(o4) < 0), z3.And(o1 == 0, z_inbox(a, b, c)), z3.And(o2 == 0, z_inbox(a, b, d)), z3.And(o3 == 0, z_inbox(c, d, a)), z3.And(o4 == 0, z_inbox(c, d, b)))
+
+
+def z_proper(a, b, c, d):
+    o1, o2, o3, o4 = py_orient(a, b, c), py_orient(a, b, d), py_orient(c, d, a), py_orient(c, d, b)
+    return z3.And(sgn(o1) * sgn(o2) < 0, sgn(o3) * sgn(o4) < 0)
+
+
+def z_fold(shared, p, q):
+    """segments shared-p and shared-q are collinear and point the same way (they overlap beyond the shared end point)"""
+    return z3.And(py_orient(p, shared, q) == 0, (p[0] - shared[0]) * (q[0] - shared[0]) + (p[1] - shared[1]) * (q[1] - shared[1]) > 0)
+
+
+def z_on_ring(v, ring): return z3.Or([z3.And(py_orient(ring[k], ring[k + 1], v) == 0, z_inbox(ring[k], ring[k + 1], v)) for k in range(len(ring) - 1)])
+
+
+def z_inside(v, ring):
+    """crossing-number point-in-polygon (meaningful for v not on the ring)"""
+    cnt = z3.IntVal(0)
+    for k in range(len(ring) - 1):
+        a, b = ring[k], ring[k + 1]
+        straddle = (a[1] > v[1]) != (b[1] > v[1])
+        lhs, rhs = (v[0] - a[0]) * (b[1] - a[1]), (b[0] - a[0]) * (v[1] - a[1])
+        left = z3.If(b[1] > a[1], lhs < rhs, lhs > rhs)
+        cnt = cnt + z3.If(z3.And(straddle, left), 1, 0)
+    return cnt % 2 == 1
+
+
+def zabs(e): return z3.If(e >= 0, e, -e)
+
+
+def h_assemble_relation(I, job):
+    """Assembler on a multipolygon relation: cycles of named points cut into member ways; some coordinates symbolic (offsets of symbolic variables)"""
+    I.fp2int_range = FP_RANGE; I.fp_model = 'real'
+    syms = {nm: I.named_signed(nm, 32, lo, hi) for nm, (lo, hi) in job['syms'].items()}
+    def coord(spec):
+        if isinstance(spec, tuple):
+            v = syms[spec[0]]
+            return ('sym', spec[0], spec[1])
+        return spec
+    names = sorted(job['pts']); pid = {nm: k + 1 for k, nm in enumerate(names)}
+    T = {}
+    for nm in names:
+        c = []
+        for spec in job['pts'][nm]:
+            if isinstance(spec, tuple): c.append(I.sterm(syms[spec[0]], 32) + spec[1])
+            else: c.append(z3.IntVal(spec))
+        T[nm] = tuple(c)
+    for a in range(len(names)):
+        for b in range(a + 1, len(names)):
+            pa, pb = T[names[a]], T[names[b]]
+            I.assume(z3.Not(z3.And(pa[0] == pb[0], pa[1] == pb[1])))
+    ways = job['ways']; total = sum(len(w) for w in ways)
+    cnt = I.new_obj(4 * len(ways), 'cnt', 'heap'); idm = I.new_obj(8 * total, 'ids', 'heap'); xm = I.new_obj(4 * total, 'xs', 'heap'); ym = I.new_obj(4 * total, 'ys', 'heap')
+    k = 0
+    for wi, w in enumerate(ways):
+        I.store(cnt + 4 * wi, i32, len(w))
+        for nm in w:
+            I.store(idm + 8 * k, i64, pid[nm])
+            for mem, spec in ((xm, job['pts'][nm][0]), (ym, job['pts'][nm][1])):
+                if isinstance(spec, tuple):
+                    sv = syms[spec[0]]
+                    val = I.binop('add', 32, sv, spec[1] & 0xffffffff, ()) if spec[1] else sv
+                else: val = spec & 0xffffffff
+                I.store(mem + 4 * k, i32, val)
+            k += 1
+    out = I.new_obj(4 * 512, 'out', 'heap'); ol = I.new_obj(4, 'ol', 'heap')
+    I.call('@verif_assemble_relation', [len(ways), cnt, idm, xm, ym, out, 512, ol])
+    tot = I.concretize(I.load(ol, i32), 'outlen')
+    ok, counters, areas = read_areas(I, out, tot)
+    I.observe('ok', ok)
+    # reference reading of the input: cycles of named points
+    cycles = [[T[nm] for nm in c] for c in job['cycles']]; cyc_names = job['cycles']
+    bad = []; proper = []
+    allsegs = [(ci, k, cyc_names[ci][k], cyc_names[ci][k + 1]) for ci in range(len(cycles)) for k in range(len(cycles[ci]) - 1)]
+    for x in range(len(allsegs)):
+        for y in range(x + 1, len(allsegs)):
+            (c1, k1, a, b), (c2, k2, c, d) = allsegs[x], allsegs[y]
+            sh = {a, b} & {c, d}
+            if len(sh) == 2: bad.append(z3.BoolVal(True)); continue           # the same segment twice: not in these templates
+            if len(sh) == 1:
+                s_ = sh.pop(); p_ = b if a == s_ else a; q_ = d if c == s_ else c
+                bad.append(z_fold(T[s_], T[p_], T[q_]))
+            else:
+                bad.append(z_common(T[a], T[b], T[c], T[d])); proper.append(z_proper(T[a], T[b], T[c], T[d]))
+    valid = z3.Not(z3.Or(bad)) if bad else z3.BoolVal(True); crossing = z3.Or(proper) if proper else z3.BoolVal(False)
+    if job.get('open'): valid = z3.BoolVal(False)
+    if job.get('open') and areas and areas[0]: raise Finding('open-ring-assembled', 'an area with rings is produced from member ways that do not close')
+    free = job.get('free') or [next(nm for nm in c if sum(nm in o for o in cyc_names) == 1) for c in cyc_names]
+    depth = [sum((z3.If(z_inside(T[free[i]], cycles[j]), 1, 0) for j in range(len(cycles)) if j != i), z3.IntVal(0)) for i in range(len(cycles))]
+    a_in = [zabs(signed_area2(c)) for c in cycles]
+    exp_area = sum((z3.If(depth[i] % 2 == 0, a_in[i], -a_in[i]) for i in range(len(cycles))), z3.IntVal(0))
+    exp_out = sum((z3.If(depth[i] % 2 == 0, 1, 0) for i in range(len(cycles))), z3.IntVal(0))
+    if len(areas) > 1: raise Finding('area-count', '%d areas delivered for one relation' % len(areas))
+    if not ok and areas: raise Finding('area-on-failure', 'an area is committed although the assembler reports failure')
+    if areas and areas[0]:
+        I.reach('assembled')
+        outers = areas[0]
+        I.obligation(z3.Not(crossing), 'invalid-input-assembled', 'an area is produced although segments of the member ways cross')
+        n_in = 0; got = z3.IntVal(0)
+        for oi, (ring, inners) in enumerate(outers):
+            ring_checks(I, ring, 'outer ring %d' % oi)
+            ao = signed_area2(ring); got = got + ao
+            I.obligation(z3.Implies(valid, ao > 0), 'orientation', 'outer ring %d is not counter-clockwise' % oi)
+            for ii, inner in enumerate(inners):
+                n_in += 1
+                ring_checks(I, inner, 'inner ring %d of outer ring %d' % (ii, oi))
+                ai = signed_area2(inner); got = got + ai
+                I.obligation(z3.Implies(valid, ai < 0), 'orientation', 'inner ring %d of outer ring %d is not clockwise' % (ii, oi))
+                for vi, v in enumerate(inner[:-1]):
+                    I.obligation(z3.Implies(valid, z3.Or(z_on_ring(v, ring), z_inside(v, ring))), 'inner-outside-outer', 'vertex %d of inner ring %d lies outside the outer ring %d it is attached to' % (vi, ii, oi))
+        I.obligation(z3.Implies(valid, got == exp_area), 'region', 'the area covered by the rings (outer minus inner) differs from the even-odd fill of the input cycles')
+        if job.get('counts', True):
+            I.obligation(z3.Implies(valid, exp_out == len(outers)), 'ring-count', '%d outer rings delivered; the even-odd nesting of the input cycles gives a different number' % len(outers))
+            I.obligation(z3.Implies(valid, len(cycles) - exp_out == n_in), 'ring-count', '%d inner rings delivered; the even-odd nesting of the input cycles gives a different number' % n_in)
+    else:
+        I.reach('rejected')
+        I.obligation(z3.Not(valid), 'valid-input-rejected', 'the member ways form a valid arrangement but no area with rings is produced')
+        if sum(counters) == 0: raise Finding('not-reported', 'invalid geometry rejected without any report to the problem reporter')
+    I.reach('end')
+
+
+def _lib(so):
+    import ctypes
+    L = ctypes.CDLL(so); L.verif_ratio.restype = ctypes.c_double; L.verif_ratio.argtypes = [ctypes.c_long, ctypes.c_long]
+    L.verif_scale_add.argtypes = [ctypes.c_double, ctypes.POINTER(ctypes.c_int), ctypes.POINTER(ctypes.c_int)]
+    return L
+
+
+def r_ratio(so, v):
+    ua = _lib(so).verif_ratio(v.get('in_na', 0), v.get('in_d', 1))
+    return not (0.0 <= ua <= 1.0), 'na=%d d=%d -> ua=%r' % (v.get('in_na', 0), v.get('in_d', 1), ua)
+
+
+def r_scale(which):
+    def f(so, v):
+        import ctypes
+        p = (ctypes.c_int * 4)(*[v.get('in_p%d' % k, 0) for k in range(4)]); out = (ctypes.c_int * 2)()
+        _lib(so).verif_scale_add(v.get('in_ua', 0.0), p, out)
+        lo, hi = min(p[which], p[which + 2]), max(p[which], p[which + 2])
+        return not (lo <= out[which] <= hi), 'ua=%r p=%s -> %s' % (v.get('in_ua'), list(p), list(out))
+    return f
+
+
+def relation_templates(q):
+    sq = dict(a0=(0, 0), a1=(8, 0), a2=(8, 8), a3=(0, 8))
+    tri = dict(b0=(('dx', 0), ('dy', 0)), b1=(('dx', 2), ('dy', 0)), b2=(('dx', 0), ('dy', 2)))
+    T = []
+    # square cut into two open ways + a triangle translated over a grid that covers inside / touching / crossing / outside positions
+    T.append(dict(name='square+triangle', pts=dict(sq, **tri), cycles=[['a0', 'a1', 'a2', 'a3', 'a0'], ['b0', 'b1', 'b2', 'b0']], ways=[['a0', 'a1', 'a2'], ['a2', 'a3', 'a0'], ['b0', 'b1', 'b2', 'b0']],
+                  syms=dict(dx=(-3, 9), dy=(-3, 9)) if not q else dict(dx=(-3, 9), dy=(1, 3))))
+    # same with the triangle listed first and the square in one reversed way
+    T.append(dict(name='triangle+square(reversed)', pts=dict(sq, **tri), cycles=[['a0', 'a1', 'a2', 'a3', 'a0'], ['b0', 'b1', 'b2', 'b0']], ways=[['b0', 'b2', 'b1', 'b0'], ['a0', 'a3', 'a2', 'a1', 'a0']],
+                  syms=dict(dx=(-3, 9), dy=(-3, 9)) if not q else dict(dx=(2, 4), dy=(-3, 9))))
+    # concave outer ring R touched by two inner rings in A and B (two split locations: R is built from two partial rings that are joined backward);
+    # the far vertices of the second inner ring move over a grid left and right of the ring's leftmost-lowest first part
+    R = dict(A=(30, 0), X=(20, 10), B=(40, 30), M=(0, 50), T=(100, 100)); HA = dict(h1=(28, 6), h2=(32, 6)); HB = dict(g1=(('hx', 0), ('hy', 0)), g2=(('hx', 2), ('hy', 4)))
+    T.append(dict(name='touching-rings', pts=dict(R, **HA, **HB), cycles=[['A', 'X', 'B', 'M', 'T', 'A'], ['A', 'h1', 'h2', 'A'], ['B', 'g1', 'g2', 'B']],
+                  ways=[['A', 'X', 'B', 'M', 'T', 'A'], ['A', 'h1', 'h2', 'A'], ['B', 'g1', 'g2', 'B']], syms=dict(hx=(8, 24), hy=(46, 52)) if not q else dict(hx=(9, 11), hy=(49, 51))))
+    # island inside a hole inside a square: depth 0 / 1 / 2
+    big = dict(a0=(0, 0), a1=(12, 0), a2=(12, 12), a3=(0, 12)); hole = dict(c0=(2, 2), c1=(10, 2), c2=(10, 10), c3=(2, 10)); isl = dict(b0=(('dx', 0), ('dy', 0)), b1=(('dx', 2), ('dy', 0)), b2=(('dx', 0), ('dy', 2)))
+    T.append(dict(name='island-in-hole', pts=dict(big, **hole, **isl), cycles=[['a0', 'a1', 'a2', 'a3', 'a0'], ['c0', 'c1', 'c2', 'c3', 'c0'], ['b0', 'b1', 'b2', 'b0']],
+                  ways=[['c0', 'c1', 'c2', 'c3', 'c0'], ['b0', 'b1', 'b2', 'b0'], ['a0', 'a1', 'a2'], ['a2', 'a3', 'a0']], syms=dict(dx=(-1, 13), dy=(-1, 13)) if not q else dict(dx=(3, 7), dy=(4, 5))))
+    # two separate squares and a triangle that moves from inside the first, across the gap, into the second: the enclosing ring must be the right one of two candidates
+    sq1 = dict(a0=(0, 0), a1=(6, 0), a2=(6, 6), a3=(0, 6)); sq2 = dict(c0=(8, 1), c1=(14, 1), c2=(14, 7), c3=(8, 7)); t2 = dict(b0=(('dx', 0), 2), b1=(('dx', 2), 2), b2=(('dx', 0), 4))
+    T.append(dict(name='two-squares', pts=dict(sq1, **sq2, **t2), cycles=[['a0', 'a1', 'a2', 'a3', 'a0'], ['c0', 'c1', 'c2', 'c3', 'c0'], ['b0', 'b1', 'b2', 'b0']],
+                  ways=[['a0', 'a1', 'a2', 'a3', 'a0'], ['b0', 'b1', 'b2', 'b0'], ['c0', 'c3', 'c2', 'c1', 'c0']], syms=dict(dx=(-3, 15))))
+    # nested squares where the outer one has a symbolic corner (shape change instead of translation), inner fixed
+    T.append(dict(name='outer-corner', pts=dict(a0=(0, 0), a1=(10, 0), a2=(('px', 0), ('py', 0)), a3=(0, 10), c0=(2, 2), c1=(5, 2), c2=(5, 5), c3=(2, 5)), cycles=[['a0', 'a1', 'a2', 'a3', 'a0'], ['c0', 'c1', 'c2', 'c3', 'c0']],
+                  ways=[['a1', 'a2', 'a3'], ['c0', 'c1', 'c2', 'c3', 'c0'], ['a3', 'a0', 'a1']], syms=dict(px=(1, 12), py=(1, 12)) if not q else dict(px=(3, 8), py=(6, 7))))
+    # member ways that do not close: must be rejected and reported
+    T.append(dict(name='open-ring', pts=dict(a0=(0, 0), a1=(8, 0), a2=(('dx', 0), ('dy', 0)), a3=(0, 8)), cycles=[], open=True, ways=[['a0', 'a1', 'a2'], ['a2', 'a3']], syms=dict(dx=(5, 9), dy=(5, 9)) if not q else dict(dx=(7, 8), dy=(8, 9))))
+    return T
+
+
+def cbmc_harnesses(tier):
+    from e1 import CbmcHarness
+    return [
+        CbmcHarness('fp_ratio', 'area', 'c10_fp.c', 'h_ratio', timeout=900, replay=r_ratio, desc='ua = double(na) / double(d) lies in [0, 1] whenever the branch condition of calculate_intersection holds', bounds='|d| <= 2^62 (all products of coordinate differences within +-2^29)'),
+        CbmcHarness('fp_scale_x', 'area', 'c10_fp.c', 'h_scale_x', unwind=6, backend=['--sat-solver', 'cadical'], flags=['--slice-formula'], timeout=900, replay=r_scale(0), desc='p0 + ua * (p1 - p0) cast to int32 stays inside the bounding box of the segment (x) for every double ua in [0, 1]: the computed intersection is a defined Location', bounds='coordinates within +-2^29'),
+        CbmcHarness('fp_scale_y', 'area', 'c10_fp.c', 'h_scale_y', unwind=6, backend=['--sat-solver', 'cadical'], flags=['--slice-formula'], timeout=900, replay=r_scale(1), desc='same for y', bounds='coordinates within +-2^29'),
+    ]
+
+
 def harnesses(tier):
     global TR
     q = tier == 'quick'
@@ -102,4 +411,20 @@ def harnesses(tier):
                 bounds='coordinates within +-2^29'),
         Harness('sweep_pruning', 'area', h_prune, mode='INT', opaque_fp=True, jobs=[dict(what='x'), dict(what='y')], reach=('end', 'pruned'), testgen=gen('ab', 6), wall=900,
                 desc='soundness of the sweep shortcuts: if outside_x_range(s2, s1) holds, or the y ranges do not overlap, calculate_intersection reports nothing for the pair', bounds='coordinates within +-2^29'),
+        Harness('assemble_way', 'assemble', h_assemble_way, mode='INT', opaque_fp=True, reach=('end', 'assembled', 'rejected'), wall=1500,
+                jobs=[dict(ids=[1, 2, 3, 1], range=2), dict(ids=[1, 2, 3, 4, 1], range=2, fixed={1: (1, 1)})] if q else
+                     [dict(ids=[1, 2, 3, 1], range=4), dict(ids=[1, 2, 3, 4, 1], range=2), dict(ids=[1, 2, 3, 4, 1], range=3, fixed={1: (1, 1)}), dict(ids=[1, 2, 3, 4, 5, 1], range=2, fixed={1: (1, 1), 2: (2, 0)})],
+                tests=[dict(_job=0, x1=0, y1=0, x2=1, y2=0, x3=0, y3=1), dict(_job=0, x1=0, y1=0, x2=1, y2=1, x3=2, y3=2), dict(_job=1, x2=0, y2=0, x3=2, y3=2, x4=0, y4=2)],
+                testgen=lambda rnd: [dict(_job=1, **{'%s%d' % (c, k): rnd.randint(0, 2) for k in (2, 3, 4) for c in 'xy'}) for _ in range(12)],
+                desc='the real area::Assembler (segment extraction, sort, duplicate removal, intersection search, ring construction, orientation, AreaBuilder output) on one closed way whose vertices are symbolic points of a small grid: '
+                     'an area with rings is produced iff the way is a simple polygon (exact orientation-test reference; crossing, touching, folding and collinear-degenerate ways give an area without rings plus a report); '
+                     'the delivered outer ring is closed, has >= 4 points, does not touch itself, contains exactly the way\'s vertices, encloses the same region (doubled signed area) and is counter-clockwise',
+                bounds='triangles / quadrilaterals%s with vertices on a grid of (range+1)^2 points (one vertex fixed where stated: translation symmetry); floating point as exact rationals (find_enclosing_ring) / inside the proved range (intersection point)' % ('' if q else ' / pentagons')),
+        Harness('assemble_relation', 'assemble', h_assemble_relation, mode='INT', opaque_fp=True, jobs=relation_templates(q), reach=('end', 'assembled', 'rejected'), wall=1500,
+                tests=[dict(_job=0, dx=3, dy=2), dict(_job=0, dx=-3, dy=2), dict(_job=0, dx=7, dy=2), dict(_job=2, hx=10, hy=50), dict(_job=3, dx=5, dy=5), dict(_job=4, dx=2), dict(_job=4, dx=10), dict(_job=6, dx=7, dy=8)],
+                desc='the real area::Assembler on multipolygon relations built from templates (a ring cut into open ways, reversed ways, member order; a triangle moved over a grid through inside / touching / crossing / outside positions; '
+                     'two inner rings touching a concave outer ring in two split locations with the far vertices of one moving; island in hole in square; two separate squares; an outer corner moving; member ways that do not close): '
+                     'whenever the cycles form a valid arrangement (exact reference: segments meet only in shared nodes) an area is produced whose rings are closed, simple, outer counter-clockwise / inner clockwise, every inner ring inside the outer ring it is attached to, '
+                     'ring counts equal to the even-odd nesting depth count and outer-minus-inner area equal to the even-odd fill; arrangements with properly crossing segments and open rings give no rings and a report',
+                bounds='7 templates with 1-2 symbolic translation / vertex variables over the stated grids (<= 17 x 13 positions); <= 14 segments; floating point as exact rationals (find_enclosing_ring) / inside the proved range (intersection point); tags, roles and the old-style tag logic are not varied'),
     ]
